@@ -78,6 +78,7 @@ class PoolExec:
         self.proto_owner: Dict[int, str] = {}
         self.released: Dict[str, bool] = {}
         self.closed = False
+        self.close_error: Optional[str] = None
         self.events: List[dict] = []
         self.init_obs = self.obs()
 
@@ -198,6 +199,11 @@ class PoolExec:
             y = coro.send(None)
         except StopIteration:
             y = None
+        except Exception as e:  # noqa: BLE001
+            # close() itself blew up part-way: whatever it had not reached yet (waiters, connections) is
+            # judged by the monitor from the following observations; the failure is reported as well
+            y = None
+            self.close_error = f"{type(e).__name__}: {e}"
         if y is not None:
             if getattr(y, "_asyncio_future_blocking", False):
                 y._asyncio_future_blocking = False
@@ -388,6 +394,9 @@ def replay_behaviour(ctx: Ctx, loop: steploop.StepLoop, beh: List[Any], consts: 
         ctx.drift(drift)
     x.finish(probes=not drift)
     tr = x.trace("tlc-sim")
+    if x.close_error:
+        ctx.violation("CloseRaised", f"CloseRaised {x.close_error.split(':')[0]}",
+                      {"error": x.close_error, "trace": tr}, "tlc-sim")
     x.teardown()
     return tr
 
@@ -457,6 +466,9 @@ def random_exec(ctx: Ctx, loop: steploop.StepLoop, rng: Any) -> dict:
             x.settle()
     x.finish()
     tr = x.trace("random")
+    if x.close_error:
+        ctx.violation("CloseRaised", f"CloseRaised {x.close_error.split(':')[0]}",
+                      {"error": x.close_error, "trace": tr}, "random")
     x.teardown()
     return tr
 
